@@ -166,7 +166,8 @@ func gsxC15RunVersion() {
 		panic(err)
 	}
 	ctx := linter.NewContext(token.NewFileSet(), types.SizesFor("gc", "amd64"))
-	ctx.GoVersion = linter.GoVersion{Major: gsxrt.IntRange("major", 0, 2), Minor: gsxrt.IntRange("minor", 0, 40)}
+	// the version in force when the checkers are created ...
+	ctx.GoVersion = linter.GoVersion{Major: gsxrt.IntRange("major0", 0, 2), Minor: gsxrt.IntRange("minor0", 0, 40)}
 	var info *linter.CheckerInfo
 	for _, x := range linter.GetCheckersInfo() {
 		if x.Name == gsxIRGroups[0].Name {
@@ -177,6 +178,9 @@ func gsxC15RunVersion() {
 	if err != nil {
 		panic(err)
 	}
+	// ... may be re-targeted by the integrating application before a run:
+	// the version configured when the file is analysed is the one that counts
+	ctx.GoVersion = linter.GoVersion{Major: gsxrt.IntRange("major", 0, 2), Minor: gsxrt.IntRange("minor", 0, 40)}
 	f := &ast.File{Name: &ast.Ident{Name: "p"}, Package: 1}
 	gsxRunSeen = false
 	c.Check(f)
@@ -187,10 +191,12 @@ func gsxC15RunVersion() {
 	// the dynamic (user rules) checker
 	env := gsxC18Env0()
 	env.globNames["r.go"] = []string{"r.go"}
+	ctx.GoVersion = linter.GoVersion{Major: gsxrt.IntRange("major0", 0, 2), Minor: gsxrt.IntRange("minor0", 0, 40)}
 	rc, err := newRuleguardChecker(gsxC18Info("r.go", "", false, "<all>", ""), &linter.CheckerContext{Context: ctx})
 	if err != nil || rc == nil {
 		panic("ruleguard checker not constructed")
 	}
+	ctx.GoVersion = linter.GoVersion{Major: gsxrt.IntRange("major", 0, 2), Minor: gsxrt.IntRange("minor", 0, 40)}
 	gsxRunSeen = false
 	rc.WalkFile(f)
 	gsxrt.Reached("dynamic run")
